@@ -153,6 +153,12 @@ impl UnixServer {
                 }
             }
             _ => {
+                // Consume the payload so the next header is read at the frame boundary
+                client
+                    .skip_payload(frame.payload_length)
+                    .await
+                    .map_err(TcpError::Io)?;
+
                 return Err(TcpError::UnknownMessage(frame.message));
             }
         }
